@@ -76,6 +76,7 @@ def panic_inventory(ck, ctx):
 
 
 def run(ck, ctx):
+    C.adapter_census(ck, ctx, "diagnostic", ("parse::", "scanner::", "depfile::", "canon::"))
     S.nul_typestate(ck, ctx, ["parse::Parser::read", "depfile::parse"])
     res = ck.extra.get("typestate", {}).get("exits", {})
     pr = res.get("parse::Parser::read", [])
@@ -95,6 +96,9 @@ def run(ck, ctx):
     ck.floor("str cut sites in the crate", n, 2)
     canon_pre(ck, ctx)
     panic_inventory(ck, ctx)
+    # a well-formed depfile naming a file that is gone must not reach hash.rs's `missing file` panic
+    from . import dirty as D
+    D.record_discipline(ck, ctx, rule="depfile-missing-file")
 
 
 def run_config(ck, ctx):
